@@ -20,7 +20,8 @@ var (
 )
 
 // phase outcome: 0 absent, 1 ok, 2 error, 3 panic
-var outcomeNames = []string{"absent", "ok", "error", "panic"}
+// (handler only) 4: ok, and the handler itself calls Wait on the service
+var outcomeNames = []string{"absent", "ok", "error", "panic", "ok+Wait"}
 
 type span struct{ start, end int }
 
@@ -74,7 +75,13 @@ func mkService(o *obs, run, shutdown, cleanup, handler int, runBlocks bool) *srv
 	if handler != 0 {
 		s.ErrorHandler.Set(func(err error) {
 			o.handlerArg = append(o.handlerArg, err)
-			_ = o.phase(&o.handler, handler, errors.New("handler-panic"), nil)
+			var inside func()
+			if handler == 4 {
+				// Run, Shutdown and Cleanup have returned by now: a Wait from
+				// here returns (with the same aggregate)
+				inside = func() { _ = s.Wait() }
+			}
+			_ = o.phase(&o.handler, handler, errors.New("handler-panic"), inside)
 		})
 	}
 	return s
@@ -346,9 +353,12 @@ func build(tier string) ([]runner.Instance, time.Duration) {
 	for run := 0; run < 4; run++ {
 		for sh := 0; sh < 4; sh++ {
 			for cl := 0; cl < 4; cl++ {
-				for _, h := range []int{0, 1, 3} {
+				for _, h := range []int{0, 1, 3, 4} {
 					for _, end := range []string{"run-returns", "close", "cancel"} {
 						if run == 0 && end != "run-returns" {
+							continue
+						}
+						if h == 4 && (sh == 3 || cl == 3 || (tier != "thorough" && end == "cancel")) {
 							continue
 						}
 						name := fmt.Sprintf("matrix/run=%s,shutdown=%s,cleanup=%s,handler=%s,end=%s", outcomeNames[run], outcomeNames[sh], outcomeNames[cl], outcomeNames[h], end)
